@@ -338,6 +338,22 @@ def gen_cases(rng, tier):
     for c in cases:
         if 'hist' not in c and rng.random() < 0.25:
             c['hist'] = [rng.choice(HIST_MODES), rng.randrange(24)]
+    # history core: every way of reaching the operand x every reduction on fixed shapes (catching a stale cached view
+    # must not depend on which random cases happen to carry a history)
+    for mode in sorted(set(HIST_MODES) | {'itruediv', 'derived', 'inplace_num', 'divzero'}):
+        for k in range(2):
+            for shape, pat in (((4,), 'mix'), ((2, 3), 'mix'), ((3,), 'aT')):
+                for op in RED_OPS + ['sort']:
+                    dtype = 'bool' if mode in ('iand', 'ior', 'ixor') else 'float'
+                    if dtype == 'bool' and op not in ('any', 'all', 'sum'):
+                        continue
+                    axis = rng.choice([None, 0, -1])
+                    if op == 'sort':
+                        c = make_sort_case(rng, shape, 0 if axis is None else axis, dtype, pat)
+                    else:
+                        c = make_red_case(rng, shape, op, axis, True, dtype, pat, 'Boolean' if dtype == 'bool' else 'Scalar')
+                    c['hist'] = [mode, k]
+                    cases.append(c)
     return cases
 
 
